@@ -12,16 +12,21 @@ import (
 	"github.com/oklog/ulid/v2"
 )
 
+// determineCommonPrefix returns the common prefix S3 groups key under: the key
+// up to and including the first delimiter that occurs after the requested
+// prefix, or nil if there is none. Only the part of the key behind the prefix
+// is searched, so a delimiter that straddles the end of the prefix (e.g.
+// prefix "a:", delimiter "::", key "a::b") does not group the key.
 func determineCommonPrefix(prefix, key, delimiter string) *string {
-	prefixSegments := strings.Split(prefix, delimiter)
-	keySegments := strings.Split(key, delimiter)
-	if len(prefixSegments) >= len(keySegments) {
+	if !strings.HasPrefix(key, prefix) {
 		return nil
 	}
-	commonPrefix := ""
-	for idx := range prefixSegments {
-		commonPrefix += keySegments[idx] + delimiter
+	rest := key[len(prefix):]
+	idx := strings.Index(rest, delimiter)
+	if idx < 0 {
+		return nil
 	}
+	commonPrefix := key[:len(prefix)+idx+len(delimiter)]
 	return &commonPrefix
 }
 
